@@ -17,6 +17,24 @@ pub(crate) struct SyscommandCounter(usize);
 
 //-------------------------------------------------------------------------------------------------------------------
 
+/// Issues tickets that tie prepared event metadata to the one command that will consume it.
+///
+/// Metadata cannot be looked up by system id alone, because several commands can be pending for the same system when
+/// recursive commands are postponed.
+#[derive(Resource, Default, Debug)]
+pub(crate) struct SetupTicketCounter(u64);
+
+impl SetupTicketCounter
+{
+    pub(crate) fn next(&mut self) -> u64
+    {
+        self.0 = self.0.wrapping_add(1);
+        self.0
+    }
+}
+
+//-------------------------------------------------------------------------------------------------------------------
+
 /// Prepares the react framework so that reactors may be registered with [`ReactCommands`].
 /// - Un-handled removals and despawns will be automatically processed in `Last`.
 pub struct ReactPlugin;
@@ -31,6 +49,7 @@ impl Plugin for ReactPlugin
         }
         app.init_resource::<CobwebCommandQueue<BufferedSyscommand>>()
             .init_resource::<SyscommandCounter>()
+            .init_resource::<SetupTicketCounter>()
             .init_resource::<SystemEventAccessTracker>()
             .init_resource::<EntityReactionAccessTracker>()
             .init_resource::<EventAccessTracker>()
